@@ -241,7 +241,9 @@ impl ToZinc for Uri {
                 '`' => writer.write_all(br"\`")?,
                 '\\' => writer.write_all(br"\\")?,
                 '\x20'..='\x7e' => writer.write_all(&[c as u8])?,
-                _ => writer.write_fmt(format_args!("\\u{:04x}", c as u32))?,
+                '\x7f'..='\u{ffff}' => writer.write_fmt(format_args!("\\u{:04x}", c as u32))?,
+                // Outside the BMP there is no 4 digit escape, write the character itself
+                _ => writer.write_fmt(format_args!("{c}"))?,
             }
         }
         writer.write_all(b"`")?;
